@@ -730,6 +730,7 @@ func scenReconnect(e *Env, args []string, r *rand.Rand) {
 	if faults[0] == "stall" {
 		endStall = p.remote.stall() // peers only start at Serve: the stall is in place before the first dial
 	}
+	preServe := e.tr.len()
 	e.serve()
 	if passive {
 		// a passive peer never dials; an inbound session works, and after it ends the next one is admitted
@@ -743,11 +744,27 @@ func scenReconnect(e *Env, args []string, r *rand.Rand) {
 		e.close()
 		return
 	}
+	faultMark := preServe
 	for _, f := range faults {
+		// events of the next connection are looked for from the moment the previous fault was injected (corebgp may
+		// reconnect at once: the idle-hold time counts from the previous exit from Idle)
 		p.mark = e.tr.len()
+		if faultMark >= 0 {
+			p.mark = faultMark
+			faultMark = -1
+		}
 		switch {
 		case f == "refuse":
 			p.remote.unlisten()
+			// a connection corebgp made at once after the previous fault, before the listener went away, is reset
+			for drained := false; !drained; {
+				select {
+				case c0 := <-p.remote.accCh:
+					c0.reset()
+				case <-time.After(5 * time.Millisecond):
+					drained = true
+				}
+			}
 			// three refused attempts: their spacing is what C11 is about
 			from := e.tr.len()
 			for k := 0; k < 3; k++ {
@@ -798,6 +815,7 @@ func scenReconnect(e *Env, args []string, r *rand.Rand) {
 			if c == nil {
 				continue
 			}
+			faultMark = e.tr.len()
 			switch kind {
 			case "close":
 				c.drainClose()
@@ -814,6 +832,9 @@ func scenReconnect(e *Env, args []string, r *rand.Rand) {
 	}
 	// from now on the remote is well-behaved: the session must come up
 	p.mark = e.tr.len()
+	if faultMark >= 0 {
+		p.mark = faultMark
+	}
 	e.tr.log(p.key, "wellbehaved")
 	if p.remote.lis == nil {
 		p.remote.listen()
